@@ -20,4 +20,34 @@ def showRes {α : Type} (f : α → String) : Res (Located α) × Nat → String
   | (.err k, c) => s!"err {k} {c}"
   | (.panic st, c) => s!"panic {st} {c}"
 
+
+partial def eachLine (h : IO.FS.Stream) (f : String → IO Unit) : IO Unit := do
+  let line ← h.getLine
+  if line.isEmpty then return ()
+  f (line.dropEndWhile (· == '\n')).toString
+  eachLine h f
+
+/-- `parsley_model_Cxx gen <seed> <n> <tier> | model | judge | nontrivial` -/
+def mainWith (d : PropDriver) (args : List String) : IO UInt32 := do
+  let stdin ← IO.getStdin
+  let stdout ← IO.getStdout
+  match args with
+  | ["gen", seed, n, tier] =>
+    d.gen seed.toNat! n.toNat! tier (fun s => stdout.putStrLn s)
+    return 0
+  | ["model"] =>
+    eachLine stdin fun l => stdout.putStrLn (d.model l)
+    return 0
+  | ["judge"] =>
+    -- input lines: <case> TAB <impl output>
+    eachLine stdin fun l =>
+      match l.splitOn "\t" with
+      | [c, o] => stdout.putStrLn (d.judge c o)
+      | _ => stdout.putStrLn "bad-judge-line"
+    return 0
+  | ["nontrivial"] =>
+    eachLine stdin fun l => stdout.putStrLn (if d.nontrivial l then "1" else "0")
+    return 0
+  | _ => IO.eprintln "usage: gen <seed> <n> <tier> | model | judge | nontrivial"; return 2
+
 end Driver
